@@ -31,7 +31,7 @@ try:
     tests = None
     if a.tests:
         tests = sh(f"cd {R} && /venv/bin/python -m pytest -q -p no:cacheprovider {a.tests} 2>&1 | tail -3")
-    chk = sh(f"cd /verif && ./check {a.pid} --tier {a.tier}")
+    chk = sh(f"cd /verif && VERIF_EVIDENCE_DIR=/verif/out/evidence-alt/patched ./check {a.pid} --tier {a.tier}")
 finally:
     sh(f"git -C {R} checkout -- .")
 viol = [l for l in chk.stdout.splitlines() if l.startswith("VIOLATION")]
